@@ -43,7 +43,10 @@ def lines(frame_top=STARS, frame_bottom=STARS, by=True, created=True, updated=Tr
     L.append(["/*   ", F(), PAD(), ":+:      :+:    :+:   */\n"])
     L.append(["/*", PAD(), "+:+ +:+         +:+     */\n"])
     if by:
-        L.append(["/*   " + by_kw + " ", F(), " <", F(), ">", PAD(), "+#+  +:+       +#+        */\n"])
+        # the stdheader template cuts the left part of a line at a fixed width: for a long login / mail domain the
+        # closing '>' (or more) of `By: login <mail>` is lost -- still a well-formed header
+        L.append(["/*   " + by_kw + " ", F(), Rep(SP, 0, 1), Rep(frozenset("<"), 0, 1), Rep(FIELD, 0, None),
+                  PAD(), "+#+  +:+       +#+        */\n"])
     else:
         L.append([BLANK])
     L.append(["/*", PAD(), "+#+#+#+#+#+   +#+           */\n"])
@@ -228,6 +231,10 @@ def rule_machine(run, prog):
                     ev = Evaluator(methods, natives={("Context", "new_error"): new_error, ("Context", "new_warning"): new_error},
                                    modules={"re": {"compile": compile_, "DOTALL": 16, "search": lambda p, s, f=0: (Obj("Match") if rx_ok else None)}},
                                    max_steps=200000)
+                    # patterns compiled at module level
+                    for nm, vals in ch.mod.assigns.items():
+                        if len(vals) == 1 and isinstance(vals[0], ast.Call) and text(vals[0].func) == "re.compile":
+                            ev.globals[nm] = compile_("", 0)
                     me = Obj("CheckHeader", context=context, name="CheckHeader")
                     emitted_at = []
                     for i, k in enumerate(seq):
